@@ -48,6 +48,7 @@ func checkC06(c *Ctx, r *Report) {
 	borrow(c, r, c05R5, "C05.R5.ttl-range", "C06.R3.ttl-range", 1, "stringToTTL accepts every value of the 32-bit field", nil, "the largest TTL, in digits or in units, is refused on a record line, in $TTL, in a $GENERATE template and as an SOA timer")
 	generateEscapesKept(c, r, "C06.R4.generate-escapes-kept")
 	genericRdlengthZero(c, r, "C06.R3.generic-rdlength-zero")
+	round12(c, r, "C06")
 }
 
 // mustPassExit is mustPass restricted to the exits accepted by isExit.
